@@ -19,7 +19,7 @@ LEVEL = "exploration"
 MANIFEST = {
     "category": "exploration",
     "technique": "offline checker over recorded histories of real CLI runs (per-step before/after snapshots with sha256 + mode) against per-flag-set reference runs; mode bits made real by dropping CAP_DAC_OVERRIDE",
-    "text": "Random histories (2-6 steps) of nnvg runs into one directory vary --file-mode (0o444, 0o644, 0o600, 0o400, 0o664, 0o640), "
+    "text": "Random histories (2-6 steps) of nnvg runs into one directory vary --file-mode (0o444, 0o644, 0o600, 0o400, 0o664, 0o640, 0, 0o200, 0o004), "
             "--no-overwrite, --omit-serialization-support, --generate-support, line post-processor options and the set of types, for c, cpp, "
             "py and html; directories are pre-populated with foreign files, longer and shorter read-only files at generated paths and "
             "read-only support headers. Every step runs under setpriv --bounding-set=-dac_override,-dac_read_search (canary: a 0444 "
@@ -28,7 +28,7 @@ MANIFEST = {
 }
 
 SETPRIV = ["setpriv", "--bounding-set=-dac_override,-dac_read_search"]
-MODES = [0o444, 0o644, 0o600, 0o400, 0o664, 0o640]
+MODES = [0o444, 0o644, 0o600, 0o400, 0o664, 0o640, 0o000, 0o200, 0o004]   # incl. the boundary value 0 and modes without owner read
 
 
 def priv(cmd):
@@ -148,6 +148,9 @@ def check_history(ctx, log):
         witness = dict(history=hid, lang=lang, step=i, prepopulated=log["prepopulated"], flags_so_far=[s["flags"] for s in log["steps"][: i + 1]], rc=rc)
         if ref["rc"] != 0:
             ctx.count("reference_run_failed")
+            lst = ctx.extra.setdefault("reference_run_failures", [])
+            if len(lst) < 5:
+                lst.append(dict(flags={k: v for k, v in flags.items() if v}, stderr=(ref.get("stderr") or "")[-300:]))
             continue
         targets = ref["files"]
         if flags.get("no_overwrite"):
@@ -226,6 +229,8 @@ def run(ctx):
         [dict(), dict(mode=0o644), dict(no_overwrite=True), dict(mode=0o400), dict(), dict(omit=True, mode=0o600)],
         [dict(), dict(omit=True), dict(dsdl="dsdl_small"), dict()],
         [dict(mode=0o644), dict(mode=0o644), dict(mode=0o640), dict(mode=0o640)],
+        [dict(mode=0), dict(), dict(mode=0), dict(mode=0o644), dict(mode=0)],
+        [dict(), dict(mode=0o200), dict(mode=0), dict(no_overwrite=True, mode=0)],
         [dict(no_overwrite=True), dict(no_overwrite=True, mode=0o600), dict(mode=0o600, no_overwrite=True, dsdl="dsdl_small")],
     ]
     for i, steps in enumerate(fixed):
